@@ -22,7 +22,7 @@ ASSUMPTIONS = [
     "agent slaves answer with latency >= 1 (registered partners); zero-latency answers come from a small FHDL memory slave and "
     "are used only with combinational decode (the code documents that registered decode needs slave latency)",
     "masters tag dat_w[31:28] with their number (also on reads) so that the request visible at a slave can be attributed",
-    "fairness bound: a request completes after at most 2*n_masters*max_block transfers of other masters",
+    "fairness bound: a request completes after at most 2*n_masters bus cycles (cyc blocks) of other masters",
 ]
 COMPONENTS = {"real": ["litex.soc.interconnect.wishbone.Arbiter/Decoder/InterconnectShared/Crossbar/InterconnectPointToPoint",
                        "litex.soc.integration.soc.SoCRegion.decoder", "migen.genlib.roundrobin.RoundRobin",
@@ -310,15 +310,26 @@ def run(scn):
             serr = sum(1 for x in sa.log if x["err"])
             if merr != serr:
                 V("err_routing", "s%d" % si, "slave answered %d transfers with err, masters saw %d" % (serr, merr))
-    # fairness
-    maxblock = 8
-    bound = 2 * nm * maxblock
+    # fairness, counted in bus cycles (cyc blocks) of the other masters: a master owns the bus until it drops cyc
+    block = []
+    for mi in range(nm):
+        b_, ids = 0, []
+        for j, op in enumerate(scn["ops"][mi]):
+            if j > 0 and not (op.get("gap", 0) == 0 or op.get("keep_cyc")):
+                b_ += 1
+            if j > 0 and scn["ops"][mi][j - 1].get("abort_after") is not None:
+                b_ += 1
+            ids.append(b_)
+        block.append(ids)
+    bound = 2 * nm
     for done, mi, op, r in evs:
         if r["aborted"]:
             continue
-        others = sum(1 for d2, m2, o2, r2 in evs if m2 != mi and not r2["aborted"] and r["issue"] <= d2 < done)
-        if others > bound:
-            V("starved", "m%d" % mi, "request issued at %d completed at %d after %d transfers of other masters (bound %d)" % (r["issue"], done, others, bound))
+        others = {(m2, block[m2][r2["op"]]) for d2, m2, o2, r2 in evs if m2 != mi and not r2["aborted"] and r["issue"] <= d2 < done}
+        checks += 1
+        if len(others) > bound:
+            V("starved", "m%d" % mi, "request issued at %d completed at %d after %d bus cycles (cyc blocks) of other masters (bound %d)"
+              % (r["issue"], done, len(others), bound))
             break
     ntr = sum(1 for e in evs if not e[3]["aborted"])
     waits = sum(ma.wait_cycles for ma in magents)
